@@ -627,13 +627,13 @@ func (i Int128) Format(s fmt.State, c rune) {
 }
 
 // Scan implements fmt.Scanner.
-func (i *Int128) Scan(state fmt.ScanState, _ rune) error {
+func (i *Int128) Scan(state fmt.ScanState, verb rune) error {
 	t, err := state.Token(true, nil)
 	if err != nil {
 		return errs.Wrap(err)
 	}
 	var v Int128
-	if v, err = Int128FromString(string(t)); err != nil {
+	if v, err = Int128FromString(scanText(string(t), verb)); err != nil {
 		return errs.Wrap(err)
 	}
 	*i = v
